@@ -52,6 +52,10 @@ def cases(draw, op="read", invalid=False, many=False, size_bias=None):
             # the controller refuses the n-th tag service it receives (may be one fragment of a fragmented transfer)
             status = draw(st.sampled_from([0x02, 0x04, 0x05, 0x10, 0x20, 0xFF]))
             forced.append({"when": {"nth": draw(st.one_of(st.integers(0, 4), st.integers(0, 16)))}, "status": status, "ext": []})
+        elif draw(st.integers(0, 7)) == 0:
+            # the controller refuses a whole Multiple Service Packet (e.g. 0x11 "reply data too large"), once or every time
+            status = draw(st.one_of(st.sampled_from([0x11, 0x11, 0x1E, 0x13, 0x15, 0x08, 0x02]), st.integers(1, 0x2C).filter(lambda x: x != 6)))
+            forced.append({"when": {"service": 0x0A, "packet": True}, "status": status, "ext": [], "once": draw(st.booleans())})
         elif draw(st.integers(0, 3)) == 0:
             t = draw(st.sampled_from(pd["tags"]))
             status = draw(st.sampled_from([0x04, 0x05, 0x08, 0x0F, 0x10, 0x13, 0x20, 0x26, 0x77, 0xFF]))
